@@ -31,9 +31,54 @@ def concrete_origin(o):
     return None
 
 
+class NdFlags(Model):
+    """ndarray.flags: attributes and the ["WRITEABLE"] spelling.  A token is an ordinary owning, writeable, contiguous buffer unless it
+    was made read-only (np.broadcast_to views, memory maps opened 'r', arr.flags.writeable = False)"""
+    _NAMES = {"WRITEABLE": "writeable", "W": "writeable", "OWNDATA": "owndata", "O": "owndata", "C_CONTIGUOUS": "c_contiguous", "C": "c_contiguous",
+              "CONTIGUOUS": "c_contiguous", "F_CONTIGUOUS": "f_contiguous", "F": "f_contiguous", "ALIGNED": "aligned", "A": "aligned"}
+
+    def __init__(self, owner):
+        self.__dict__["_owner"] = owner
+
+    def _get(self, name):
+        o = self.__dict__["_owner"]
+        if name == "writeable":
+            return not o.__dict__.get("_readonly", False)
+        if name in ("c_contiguous", "contiguous"):
+            return bool(getattr(o, "contiguous", True))
+        if name == "f_contiguous":
+            return len(getattr(o, "shape", ())) <= 1 and bool(getattr(o, "contiguous", True))
+        if name == "owndata":
+            org = getattr(o, "origin", None)
+            return not (isinstance(org, tuple) and org[:1] == ("idx",))
+        if name == "aligned":
+            return True
+        raise Unsupported("ndarray.flags.%s" % name)
+
+    def __getattr__(self, name):
+        if name.startswith("_"):
+            raise AttributeError(name)
+        return self._get(name)
+
+    def __setattr__(self, name, value):
+        if name == "writeable":
+            self.__dict__["_owner"].__dict__["_readonly"] = not value
+            return
+        raise Unsupported("ndarray.flags.%s = ..." % name)
+
+    def __getitem__(self, key):
+        if key not in self._NAMES:
+            raise Raised("KeyError", None, "Unknown flag")
+        return self._get(self._NAMES[key])
+
+
 class RawTok(Model):
     """raw ndarray / number behind an Array"""
     kinds = ("ndarray",)
+
+    @property
+    def flags(self):
+        return NdFlags(self)
 
     def __init__(self, origin, shape=(3,), dtype=None):
         self.origin, self.shape = origin, tuple(shape)
